@@ -984,11 +984,6 @@ def live_before(h, j):
     return (s[2], s[3])
 
 
-def journaled_kind(fr):
-    """A frame send_msg journals: not a PossDup copy, not a gap fill."""
-    return isinstance(fr, list) and not fr[2] and not (fr[0] == 4 and fr[4])
-
-
 def classify(h, pt, kind, detail=None):
     """Name of the known-finding class that explains a failure of this kind at this restart point, or None."""
     ops = h["ops"]
@@ -999,11 +994,6 @@ def classify(h, pt, kind, detail=None):
         src = [e[0] for e in pre if isinstance(e[1], list) and e[1] in detail]
         if src and all(ops[i][0] == 2 and ops[i][1] == 4 for i in src):
             return "D20_app_sequence_reset_uncounted"
-    # D14: death after a transport write whose journal write has not committed
-    if kind in ("reuse", "nout") and pkind == "c":
-        lw = max([i for i, e in enumerate(pre) if journaled_kind(e[1])], default=None)
-        if lw is not None and not any(e[1] == 17 for e in pre[lw + 1:]):
-            return "D14_crash_between_write_and_journal"
     if kind in ("reuse", "nout", "inactive"):
         # aftermath of D20: a later journal write of the old object hit the row an application-sent SequenceReset
         # left under a number it did not consume (DuplicateSeqNoError: the live counter moved, the stored one did not)
@@ -1209,6 +1199,10 @@ CURATED = [
     (2, LOGON_A + [[2, 0, 0, 0, 1, 0], [3, 1], [4], [0], [1, 5, 2, 0, 0, 0], [2, 0, 0, 0, 2, 0]]),
     (1, LOGON_I + [[1, 0, 2, 0, 1, 0], [4], [0], [2, 5, 0, 0, 0, 0], [1, 5, 3, 0, 0, 0], [1, 0, 4, 0, 2, 0]]),
     (2, LOGON_A + [[1, 0, 2, 0, 1, 0], [1, 0, 1, 0, 2, 0]]),
+    # non-Logon traffic before the Logon exchange has completed: dropped / refused
+    (1, [[0], [2, 5, 0, 0, 0, 0], [1, 0, 1, 0, 5, 0], [0], [2, 5, 0, 0, 0, 0], [1, 5, 2, 0, 0, 0]]),
+    (1, [[0], [2, 5, 0, 0, 0, 0], [1, 2, 1, 0, 7, 0]]),
+    (1, [[0], [2, 5, 0, 0, 0, 0], [1, 6, 1, 0, 0, 0]]),
     (1, [[0], [2, 0, 0, 0, 1, 0], [2, 5, 0, 0, 0, 0], [2, 0, 0, 0, 2, 0], [1, 5, 3, 0, 0, 0], [1, 0, 4, 0, 1, 0]]),
     (2, [[0], [1, 0, 1, 0, 1, 0], [0], [1, 5, 4, 0, 0, 0], [1, 4, 1, 1, 5, 1]]),
 ]
@@ -1229,9 +1223,15 @@ WITNESSES = {
                                 lambda h, res: h["steps"][2][2] == 3 and h["steps"][2][4] == 2 and h["steps"][2][1] == 0
                                 and res["restored"][0] == 3 and not any(f[0] == 3 for f in res["wire"])
                                 and res["steps"][1][1] == 17),
-    "C09_crash_before_journal_refuted": (2, LOGON_A + [[2, 0, 0, 0, 9, 0]], ["c", 2, 9, True],
-                                         lambda h, res: res["restored"][1] == 2 and [0, 2, 0, 9, 0] in res["old_wire"]
-                                         and [5, 2, 0, 0, 0] in res["wire"]),
+    # former D14: journal first.  Effects of the send: 9 INSERT, 10 UPDATE, 11 COMMIT, 12 write, 13 drain
+    "C09_send_crash_points@10": (2, LOGON_A + [[2, 0, 0, 0, 9, 0]], ["c", 2, 10, True],
+                                 lambda h, res: res["restored"][1] == 2 and [0, 2, 0, 9, 0] not in res["old_wire"]),
+    "C09_send_crash_points@11": (2, LOGON_A + [[2, 0, 0, 0, 9, 0]], ["c", 2, 11, True],
+                                 lambda h, res: res["restored"][1] == 3 and [0, 2, 0, 9, 0] not in res["old_wire"]
+                                 and [5, 3, 0, 0, 0] in res["wire"]),
+    "C09_send_crash_points@12": (2, LOGON_A + [[2, 0, 0, 0, 9, 0]], ["c", 2, 12, True],
+                                 lambda h, res: res["restored"][1] == 3 and [0, 2, 0, 9, 0] in res["old_wire"]
+                                 and [5, 3, 0, 0, 0] in res["wire"]),
     "C09_duplicate_inbound_row": (2, LOGON_A + [[1, 4, 2, 0, 2, 1], [1, 0, 2, 0, 1, 0]], ["g", 3, -1, False],
                                   lambda h, res: h["steps"][3][0] == 2 and h["steps"][3][2] == 3 and h["steps"][3][4] == 2),
 }
